@@ -1,0 +1,16 @@
+//go:build verif
+
+package websocket
+
+import "github.com/talostrading/sonic"
+
+// VerifAttach puts the stream into StateActive on top of the given transport, exactly as a successful handshake does
+// (reset, state change, init). Verification harness only.
+func (s *Stream) VerifAttach(stream sonic.Stream) error {
+	s.reset()
+	s.state = StateActive
+	return s.init(stream)
+}
+
+// VerifSrc exposes the read buffer so that the harness can place handshake leftovers in it. Verification harness only.
+func (s *Stream) VerifSrc() *sonic.ByteBuffer { return s.src }
